@@ -1,7 +1,95 @@
 import CddVerif.Driver.Basic
+import CddVerif.Py.AstJson
+import CddVerif.Model.SyncProperties
 /-! Driver ops for C13 (line protocol; see Main.lean). Only Mathlib-free imports here. -/
 namespace Driver.C13
-open Lean Driver
+open Lean Driver PyAst SyncProps
 
-def ops : List (String × Handler) := []
+def errName : Err → String
+  | .assertion => "raises:AssertionError"
+  | .notImplemented => "raises:NotImplementedError"
+  | .typeError => "raises:TypeError"
+  | .keyError => "raises:KeyError"
+  | .indexError => "raises:IndexError"
+  | .invalidOutput => "raises:InvalidInput"
+  | .unparseable => "unparseable-output"
+  | .unsupported => "unsupported"
+
+def errJ (e : Err) : Json := Json.mkObj [("error", Json.str (errName e))]
+
+def nodeJ : Node → Json
+  | .arg a => Json.mkObj [("node", "arg"), ("arg", argJ a)]
+  | .stmt s => Json.mkObj [("node", "stmt"), ("stmt", stmtJ s)]
+
+def nodeOf (j : Json) : Except String Node := do
+  match (← getStr j "node") with
+  | "arg" => return .arg (argOf (← j.getObjVal? "arg"))
+  | _ => return .stmt (stmtOf (← j.getObjVal? "stmt"))
+
+def locOfJ (j : Json) (k : String) : Except String Loc := do
+  return (← getArr j k).toList.filterMap fun x => match x with | .str s => some s | _ => none
+
+def locJ (l : Loc) : Json := Json.arr (l.map Json.str).toArray
+
+def constOf (j : Json) : Const :=
+  match j.getObjVal? "s" with
+  | .ok (.str s) => .str s
+  | _ => match j.getObjVal? "r" with
+    | .ok (.str r) => .raw r
+    | _ => .raw "?"
+
+def optStrOf (j : Json) (k : String) : Option String :=
+  match j.getObjVal? k with | .ok (.str s) => some s | _ => none
+
+def stateJ (st : RState) : List (String × Json) :=
+  [("replaced", Json.bool st.replaced), ("poisoned", Json.bool st.poisoned), ("phantom", Json.bool st.phantom)]
+
+def ops : List (String × Handler) := [
+  ("c13.annotate", fun j => do
+    let m := moduleOf (← j.getObjVal? "module")
+    return Json.mkObj [("entries", Json.arr ((annotateAncestry m).map fun e =>
+      Json.arr #[Json.str e.kind, locJ e.loc, optInt e.idx]).toArray)]),
+  ("c13.find", fun j => do
+    let m := moduleOf (← j.getObjVal? "module")
+    let search ← locOfJ j "search"
+    match findInAst search m with
+    | .error e => return errJ e
+    | .ok none => return Json.mkObj [("found", Json.null)]
+    | .ok (some n) => return Json.mkObj [("found", nodeJ n)]),
+  ("c13.rewrite", fun j => do
+    let m := moduleOf (← j.getObjVal? "module")
+    let search ← locOfJ j "search"
+    let repl ← nodeOf (← j.getObjVal? "repl")
+    let r := rewriteAtQuery search repl m
+    match rewriteChecked search repl m with
+    | .error e => return Json.mkObj (("error", Json.str (errName e)) :: stateJ r.2)
+    | .ok m' => return Json.mkObj (("ok", moduleJ m') :: stateJ r.2)),
+  ("c13.remit", fun j => do
+    return Json.mkObj [("doc", Json.str (remitDoc (← getStr j "doc")))]),
+  ("c13.literal", fun j => do
+    let vs := (← getArr j "values").toList.map constOf
+    match it2literal vs with
+    | .error e => return errJ e
+    | .ok t => return Json.mkObj [("text", Json.str t)]),
+  ("c13.sync", fun j => do
+    let input := moduleOf (← j.getObjVal? "input")
+    let output := moduleOf (← j.getObjVal? "output")
+    let ev := match j.getObjVal? "eval_value" with
+      | .ok (.arr a) => some (a.toList.map constOf)
+      | _ => none
+    let cfg : Config := {
+      inputEval := (getBool j "input_eval").toOption.getD false
+      inputParam := (← getStr j "input_param")
+      outputParam := (← getStr j "output_param")
+      wrap := optStrOf j "wrap"
+      evalValue := ev }
+    let search := stripSplit cfg.outputParam
+    -- diagnostics: state of the rewrite (ghost flags) when a replacement node exists
+    let diag := match replacementNode cfg search (astParse input) with
+      | .ok repl => stateJ (rewriteAtQuery search repl (astParse output)).2 ++ [("repl", nodeJ repl)]
+      | .error _ => []
+    match syncProperties cfg { input := input, output := output } with
+    | .error e => return Json.mkObj (("error", Json.str (errName e)) :: ("search", locJ search) :: diag)
+    | .ok fs => return Json.mkObj (("ok", moduleJ fs.output) :: ("input", moduleJ fs.input) :: ("search", locJ search) :: diag))
+]
 end Driver.C13
